@@ -269,7 +269,7 @@ theorem leaf_note (F d : Nat) (semi acc : Int) (nat : Bool) (len : Option LenExp
   have hmod : Int.tmod semi 12 = semi := Int.tmod_eq_of_lt h0 h12
   unfold leaf
   simp only [h.nb, Bool.false_eq_true, if_false, tk, tok, Tok.ty]
-  unfold execNote
+  unfold execNote noteDraws advance
   simp only [Tok.data, Tok.vi, List.length_cons, List.length_nil, dataI, dataS, List.getD_cons_zero, List.getD_cons_succ, int_toI, none_toI, str_toS,
     optInt_toI, ho, hv, htr, hq, drawIf_zero, h.ks, h.oo, hmod, calcLength_lenText _ _ len hl, if_true, ne_eq, not_true_eq_false, if_false,
     Int.lt_irrefl, Nat.lt_irrefl, setT_t _ _ h.cur, setT_setT, setT_octaveOnce]
